@@ -14,7 +14,7 @@ FUNCTIONS = [
 BOUNDS = {
     "quick": "chunk arithmetic: all n>=0, n_chunks>=1, chunk_index (unbounded integers; islice/generator replaced by an exact abstract-sequence model); "
              "generator pipeline: n<=5, n_chunks<=12; assembly: n_thetas<=4, n_chunks<=4, chunk-file sequences of length<=n_chunks+1 (with repetition); metric: vectors of length<=3",
-    "thorough": "chunk arithmetic: unbounded; generator pipeline: n<=10, n_chunks<=50; assembly: n_thetas<=5, n_chunks<=5 (sequences <= n_chunks+1), n_thetas 6 (n_chunks<=6), 7 (n_chunks<=5) and 8 (n_chunks=3), and n_chunks=11>pairs; metric: vectors <=4",
+    "thorough": "chunk arithmetic: unbounded; generator pipeline: n<=10, n_chunks<=50; assembly: n_thetas<=5, n_chunks<=5 (sequences <= n_chunks+1), n_thetas 6 (n_chunks<=6), 7 (n_chunks<=5) and 8 (n_chunks=3), n_chunks=11>pairs, and 20 / 66 samples in one fixed chunk order each; metric: vectors <=4",
 }
 ASSUMPTIONS = [
     "itertools.islice(it, k) yields the next min(k, remaining) items and raises ValueError for k<0 (abstract-sequence model used only for the unbounded arithmetic lemma; the bounded pipeline runs the real generator/islice/deque)",
@@ -41,6 +41,8 @@ def configs(tier, seed):
         for nt, k in ((6, 1), (6, 2), (6, 3), (6, 4), (6, 5), (7, 2), (7, 3), (7, 4), (7, 5), (8, 3), (6, 6)):
             out.append(dict(name="assemble nt=%d k=%d" % (nt, k), h="assemble", nt=nt, k=k, extra=1, plen=2))
         out.append(dict(name="assemble nt=5 k=11 (more chunks than pairs)", h="assemble", nt=5, k=11, extra=0, plen=1, fixed_order="rev"))
+        out.append(dict(name="assemble nt=20 k=7 (one rotated order with a repeat)", h="assemble", nt=20, k=7, extra=0, plen=1, fixed_order="rot"))
+        out.append(dict(name="assemble nt=66 k=5 (reversed order)", h="assemble", nt=66, k=5, extra=0, plen=1, fixed_order="rev"))
         out.append(dict(name="assemble nt=4 k=7 (more chunks than pairs)", h="assemble", nt=4, k=7, extra=0, plen=2, fixed_order="rot"))
     out.append(dict(name="incomplete nt=3", h="incomplete", nt=3, k=3))
     out.append(dict(name="incomplete nt=4", h="incomplete", nt=4, k=4 if q else 6))
